@@ -207,7 +207,13 @@ def function_table(tree, modname):
             if isinstance(c, FUNC + (ast.ClassDef,)):
                 q = prefix + "." + c.name
                 if isinstance(c, FUNC):
-                    # last definition wins, as at run time
+                    # several defs of one name in one scope (the closures
+                    # `get`/`set` of PacketVar): number them
+                    k = 2
+                    base = q
+                    while q in out:
+                        q = f"{base}#{k}"
+                        k += 1
                     out[q] = c
                 rec(c, q)
             else:
